@@ -16,9 +16,9 @@ theorem cfg_all (W : WalkerCfg) (q : LevelCfg → Bool) (h : W.allCfgs.all q = t
   List.all_eq_true.mp h _ (cfg_mem_allCfgs W l)
 
 /-- the walk fails as soon as one step on the way fails -/
-theorem walkedFrom_step_false (c : LevelCfg) (inGit : Bool) (ign : IgnoreOracle) (ty : RelPath → FType)
+theorem walkedFrom_step_false (c : LevelCfg) (s : Site)
     (a : RelPath) (n : Name) (b : RelPath) :
-    ∀ pre, stepOk c inGit ign (pre ++ a ++ [n]) n = false → walkedFrom c inGit ign ty pre (a ++ n :: b) = false := by
+    ∀ pre, stepOk c s (pre ++ a) n = false → walkedFrom c s pre (a ++ n :: b) = false := by
   induction a with
   | nil => intro pre h; simp at h; simp [walkedFrom, h]
   | cons x a ih =>
@@ -27,9 +27,9 @@ theorem walkedFrom_step_false (c : LevelCfg) (inGit : Bool) (ign : IgnoreOracle)
     simp [walkedFrom, this]
 
 /-- … or one proper ancestor is not descended into -/
-theorem walkedFrom_descend_false (c : LevelCfg) (inGit : Bool) (ign : IgnoreOracle) (ty : RelPath → FType)
+theorem walkedFrom_descend_false (c : LevelCfg) (s : Site)
     (a : RelPath) (n : Name) (b : RelPath) (hb : b ≠ []) :
-    ∀ pre, descends c (ty (pre ++ a ++ [n])) = false → walkedFrom c inGit ign ty pre (a ++ n :: b) = false := by
+    ∀ pre, descends c (s.ty (pre ++ a ++ [n])) = false → walkedFrom c s pre (a ++ n :: b) = false := by
   induction a with
   | nil =>
     intro pre h
@@ -44,33 +44,37 @@ theorem walkedFrom_descend_false (c : LevelCfg) (inGit : Bool) (ign : IgnoreOrac
 theorem mem_split {α} {n : α} {p : List α} (h : n ∈ p) : ∃ a b, p = a ++ n :: b := List.append_of_mem h
 
 /-- a component whose name the filter rejects, at any depth, prunes the entry -/
-theorem walked_false_of_filtered (c : LevelCfg) (inGit : Bool) (ign : IgnoreOracle) (ty : RelPath → FType)
-    (p : RelPath) (n : Name) (hn : n ∈ p) (hf : c.filtered.contains n = true) : walked c inGit ign ty p = false := by
+theorem walked_false_of_filtered (c : LevelCfg) (s : Site)
+    (p : RelPath) (n : Name) (hn : n ∈ p) (hf : c.filtered.contains n = true) : walked c s p = false := by
   obtain ⟨a, b, rfl⟩ := mem_split hn
-  exact walkedFrom_step_false c inGit ign ty a n b [] (by simp only [List.nil_append, stepOk, hf]; simp)
+  exact walkedFrom_step_false c s a n b [] (by simp only [List.nil_append, stepOk, hf]; simp)
 
 /-- an honoured ignore file that matches the entry or one of its ancestors prunes the entry -/
-theorem walked_false_of_ignored (c : LevelCfg) (inGit : Bool) (ign : IgnoreOracle) (ty : RelPath → FType)
-    (a : RelPath) (n : Name) (b : RelPath) (k : IgnKind) (hk : honoured c inGit k = true) (hi : ign k (a ++ [n]) = true) :
-    walked c inGit ign ty (a ++ n :: b) = false := by
-  apply walkedFrom_step_false c inGit ign ty a n b []
-  have : ignoredBy c inGit ign (a ++ [n]) = true := by
+theorem walked_false_of_ignored (c : LevelCfg) (s : Site)
+    (a : RelPath) (n : Name) (b : RelPath) (k : IgnKind) (hk : honoured c (inGitAt c s a) k = true)
+    (hi : s.ign k (a ++ [n]) = true ∨ (c.parents = true ∧ s.ignAbove k (a ++ [n]) = true)) :
+    walked c s (a ++ n :: b) = false := by
+  apply walkedFrom_step_false c s a n b []
+  have : ignoredBy c (inGitAt c s a) s (a ++ [n]) = true := by
     unfold ignoredBy
     rw [List.any_eq_true]
-    exact ⟨k, by cases k <;> simp [allKinds], by simp [hk, hi]⟩
+    refine ⟨k, by cases k <;> simp [allKinds], ?_⟩
+    rcases hi with hi | ⟨hp, hi⟩
+    · simp [hk, hi]
+    · simp [hk, hp, hi]
   simp only [List.nil_append, stepOk, this]; simp
 
 /-- with `hidden(true)` a dot-component prunes the entry -/
-theorem walked_false_of_hidden (c : LevelCfg) (inGit : Bool) (ign : IgnoreOracle) (ty : RelPath → FType)
-    (p : RelPath) (n : Name) (hn : n ∈ p) (hh : c.hidden = true) (hd : isHidden n = true) : walked c inGit ign ty p = false := by
+theorem walked_false_of_hidden (c : LevelCfg) (s : Site)
+    (p : RelPath) (n : Name) (hn : n ∈ p) (hh : c.hidden = true) (hd : isHidden n = true) : walked c s p = false := by
   obtain ⟨a, b, rfl⟩ := mem_split hn
-  exact walkedFrom_step_false c inGit ign ty a n b [] (by simp only [List.nil_append, stepOk, hh, hd]; simp)
+  exact walkedFrom_step_false c s a n b [] (by simp only [List.nil_append, stepOk, hh, hd]; simp)
 
 /-- nothing below a symlink is reached unless links are followed -/
-theorem walked_false_below_symlink (c : LevelCfg) (inGit : Bool) (ign : IgnoreOracle) (ty : RelPath → FType)
-    (a : RelPath) (n : Name) (b : RelPath) (hb : b ≠ []) (hl : c.followLinks = false) (ht : ty (a ++ [n]) = .symlink) :
-    walked c inGit ign ty (a ++ n :: b) = false := by
-  apply walkedFrom_descend_false c inGit ign ty a n b hb []
+theorem walked_false_below_symlink (c : LevelCfg) (s : Site)
+    (a : RelPath) (n : Name) (b : RelPath) (hb : b ≠ []) (hl : c.followLinks = false) (ht : s.ty (a ++ [n]) = .symlink) :
+    walked c s (a ++ n :: b) = false := by
+  apply walkedFrom_descend_false c s a n b hb []
   simp [ht, descends, hl]
 
 theorem isBinary_of_nul (S : SniffCfg) (buf : Bytes) (hb : S.boms.any (fun m => m.isPrefixOf buf) = false)
